@@ -11,7 +11,7 @@
 //!
 //! Generators (pure functions of the `vcore::Rng` handed in):
 //! * [`gen_header`]`(&mut Rng, &HeaderOpts) -> HeaderDesc` — `HeaderOpts { fileformat, max_samples,
-//!   idx: IdxMode::{None,Natural,Permuted,Sparse}, model, extras, min_contig_len }`;
+//!   idx: IdxMode::{None,Natural,Permuted,Sparse}, model, extras, min_contig_len, v45_numbers }`;
 //! * [`gen_record`]`(&mut Rng, &HeaderDesc, &RecOpts) -> RecDesc` — `RecOpts { model:
 //!   Model::{Full,Bcf,Common}, nan, invalid_ints, rare }`; consistent with the header (Number=A/R/G
 //!   lengths follow the ALT count, FORMAT keys / sample count follow the header, first-allele
